@@ -85,6 +85,12 @@ func GoPaths(name string) []PathInfo {
 	add(pinfo(mk(name, "B2"), gast.TBool, reflect.Bool, "field"))
 	add(pinfo(mk(name, "T"), gast.TTime, reflect.Struct, "field"))
 	add(pinfo(mk(name, "T2"), gast.TTime, reflect.Struct, "field"))
+	// embedded structs: shadowed and promoted fields (one spelling per location)
+	add(pinfo(mk(name, "Base", "I64"), gast.TInt, reflect.Int64, "embedded"))
+	add(pinfo(mk(name, "Base", "S"), gast.TStr, reflect.String, "embedded"))
+	add(pinfo(mk(name, "Mid"), gast.TInt, reflect.Int64, "embedded"))
+	add(pinfo(mk(name, "Base", "Core", "Mid"), gast.TInt, reflect.Int64, "embedded"))
+	add(pinfo(mk(name, "Deep"), gast.TInt, reflect.Int64, "embedded"))
 	// pointers to numbers
 	pi := pinfo(mk(name, "PI"), gast.TInt, reflect.Int64, "ptrnum")
 	pi.ArithOnly = true
@@ -370,6 +376,11 @@ func Fact(t Src, d Domain, label string) *facts.Fact {
 	f.PF = &pf
 	f.Sub = genSub(t, d, label+"Sub")
 	f.Val = *genSub(t, d, label+"Val")
+	f.Base.I64 = gi(reflect.Int64, "Base.I64")
+	f.Base.S = genString(t, d, label+"Base.S")
+	f.Base.Mid = gi(reflect.Int64, "Base.Mid")
+	f.Base.Core.Mid = gi(reflect.Int64, "Base.Core.Mid")
+	f.Base.Core.Deep = gi(reflect.Int64, "Base.Core.Deep")
 	f.Any = genSub(t, d, label+"Any")
 	f.Arr = make([]int64, ArrLen)
 	f.Arr32 = make([]int32, ArrLen)
